@@ -339,6 +339,8 @@ func (v *VecDense) AddScaledVec(a Vector, alpha float64, b Vector) {
 		panic(ErrShape)
 	}
 
+	v.reuseAsNonZeroed(ar)
+
 	var amat, bmat blas64.Vector
 	fast := true
 	aU, _ := untransposeExtract(a)
@@ -359,8 +361,6 @@ func (v *VecDense) AddScaledVec(a Vector, alpha float64, b Vector) {
 	} else {
 		fast = false
 	}
-
-	v.reuseAsNonZeroed(ar)
 
 	switch {
 	case alpha == 0: // v <- a
